@@ -9,7 +9,8 @@ From Coq Require Import QArith List Arith Bool PeanoNat.
 Import ListNotations.
 Require Import Fggs.Model.SCC Fggs.Model.SumProduct Fggs.Model.SumProductCheck
                Fggs.Model.EReal Fggs.Model.Trop Fggs.Model.Kleene.
-Require Import Fggs.Proofs.SP_mono Fggs.Proofs.Kleene_proofs Fggs.Proofs.Kleene_control Fggs.Proofs.Kleene_linear.
+Require Import Fggs.Proofs.SP_mono Fggs.Proofs.Kleene_proofs Fggs.Proofs.Kleene_control Fggs.Proofs.Kleene_linear
+               Fggs.Proofs.Kleene_fixpoint Fggs.Proofs.Kleene_check.
 Require Import Fggs.Model.Semiring.
 Local Open Scope nat_scope.
 
@@ -358,3 +359,113 @@ Theorem C02_rule_affine :
                                (x (fst ed) eta)).
 Proof. exact (@rule_val_affine). Qed.
 Print Assumptions C02_rule_affine.
+
+(** * 6. the loop of fixed_point on the grammar's equations; what the check's verdict 0 means *)
+(** [env_le_on o G x y] / [env_eq_on G x y] (Proofs/SP_mono.v): x <= y / x = y at every
+    nonterminal X of G and every in-range index tuple xi, i.e.
+    [forall X xi, In X (nonterminals G) -> In xi (all_assts (lshape G X)) -> le o (x X xi) (y X xi)]. *)
+
+(** a Kleene iterate that is a fixed point is the least fixed point *)
+Theorem C02_Zk_fixed_is_least :
+  forall R (o : sr_ops R), sr_ring o -> sr_ordered o ->
+  forall G w k, wf_grammar G = true ->
+    env_eq_on G (Zk o G w k) (Zk o G w (S k)) ->
+    env_eq_on G (step o G w (Zk o G w k)) (Zk o G w k)
+    /\ (forall v : env (R:=R), env_le_on o G (step o G w v) v -> env_le_on o G (Zk o G w k) v)
+    /\ (forall j, env_le_on o G (Zk o G w j) (Zk o G w k)).
+Proof. exact (@Zk_fixed_is_least). Qed.
+Print Assumptions C02_Zk_fixed_is_least.
+
+(** fixed_point's loop run on [step o G w] from zero with an exact stopping test: if it does
+    not warn, it returns the least fixed point (Bool; integer-weight Viterbi) *)
+Theorem C02_fixed_point_quiet_is_lfp :
+  forall R (o : sr_ops R), sr_ring o -> sr_ordered o ->
+  forall G w (close : env (R:=R) -> env (R:=R) -> bool) kmax y0 y1,
+    wf_grammar G = true ->
+    (forall x y, close x y = true -> env_eq_on G x y) ->
+    fixed_point_loop (step o G w) close kmax (zero_env o) = Some (y0, y1, false) ->
+    exists k, k <= kmax /\ y0 = Zk o G w k /\ y1 = Zk o G w (S k)
+      /\ env_eq_on G (step o G w y0) y0
+      /\ (forall v : env (R:=R), env_le_on o G (step o G w v) v -> env_le_on o G y0 v)
+      /\ (forall j, env_le_on o G (Zk o G w j) y0).
+Proof. exact (@fixed_point_quiet_is_lfp). Qed.
+Print Assumptions C02_fixed_point_quiet_is_lfp.
+
+(** whether or not it warns, what it returns is below every pre-fixed point *)
+Theorem C02_fixed_point_result_below_prefix :
+  forall R (o : sr_ops R), sr_ring o -> sr_ordered o ->
+  forall G w (close : env (R:=R) -> env (R:=R) -> bool) kmax y0 y1 warned,
+    wf_grammar G = true ->
+    fixed_point_loop (step o G w) close kmax (zero_env o) = Some (y0, y1, warned) ->
+    forall v : env (R:=R), env_le_on o G (step o G w v) v -> env_le_on o G y0 v /\ env_le_on o G y1 v.
+Proof. exact (@fixed_point_result_below_prefix). Qed.
+Print Assumptions C02_fixed_point_result_below_prefix.
+
+(** verdict 0 of the Boolean check on a run whose values are judged: the implementation
+    returned, for every nonterminal and cell, exactly the least fixed point *)
+Theorem C02_fp_check_bool_sound :
+  forall gw ws meth kmax tol K warned obs,
+    fp_check_bool (gw, ws, (meth, kmax, tol), K, (false, warned, true, obs)) = 0 ->
+    let G := grammar_of_w gw in
+    let w := env_of bool_ops (weights_tmt (fun b : bool => b) G ws) in
+    exists mu : env (R:=bool),
+      env_eq_on G (step bool_ops G w mu) mu
+      /\ (forall v : env (R:=bool), env_le_on bool_ops G (step bool_ops G w v) v -> env_le_on bool_ops G mu v)
+      /\ (exists k, env_eq_on G mu (Zk bool_ops G w k))
+      /\ forall X, In X (nonterminals G) ->
+           exists ob, obs_get obs X = Some ob /\ ob = map (mu X) (all_assts (lshape G X)).
+Proof. exact fp_check_bool_sound. Qed.
+Print Assumptions C02_fp_check_bool_sound.
+
+(** Viterbi: the least fixed point lies inside every observed interval *)
+Theorem C02_fp_check_trop_sound :
+  forall gw ws meth kmax tol K warned obs,
+    sr_ring trop_ops -> sr_ordered trop_ops ->
+    fp_check_trop (gw, ws, (meth, kmax, tol), K, (false, warned, true, obs)) = 0 ->
+    let G := grammar_of_w gw in
+    let w := env_of trop_ops (weights_tmt trop_of G ws) in
+    exists mu : env (R:=trop),
+      env_eq_on G (step trop_ops G w mu) mu
+      /\ (forall v : env (R:=trop), env_le_on trop_ops G (step trop_ops G w v) v -> env_le_on trop_ops G mu v)
+      /\ (exists k, env_eq_on G mu (Zk trop_ops G w k))
+      /\ forall X, In X (nonterminals G) ->
+           exists ob, obs_get obs X = Some ob
+             /\ length ob = length (all_assts (lshape G X))
+             /\ forall i xi b, nth_error (all_assts (lshape G X)) i = Some xi -> nth_error ob i = Some b ->
+                               tle (trop_of (fst b)) (mu X xi) /\ tle (mu X xi) (trop_of (snd b)).
+Proof. exact fp_check_trop_sound. Qed.
+Print Assumptions C02_fp_check_trop_sound.
+
+(** Real / Log: every observed interval meets a certified enclosure [lo, u] of the least fixed point *)
+Theorem C02_fp_check_real_sound :
+  forall gw ws meth kmax tol K warned obs,
+    sr_ring ereal_ops -> sr_ordered ereal_ops ->
+    fp_check_real (gw, ws, (meth, kmax, tol), K, (false, warned, true, obs)) = 0 ->
+    let G := grammar_of_w gw in
+    let w := env_of ereal_ops (weights_tmt ereal_of G ws) in
+    exists lo u : env (R:=ereal),
+      (forall k, env_le_on ereal_ops G (Zk ereal_ops G w k) u)
+      /\ env_le_on ereal_ops G (step ereal_ops G w u) u
+      /\ (exists k, env_le_on ereal_ops G lo (Zk ereal_ops G w k))
+      /\ (forall v : env (R:=ereal), env_le_on ereal_ops G (step ereal_ops G w v) v -> env_le_on ereal_ops G lo v)
+      /\ forall X, In X (nonterminals G) ->
+           exists ob, obs_get obs X = Some ob
+             /\ length ob = length (all_assts (lshape G X))
+             /\ forall i xi b, nth_error (all_assts (lshape G X)) i = Some xi -> nth_error ob i = Some b ->
+                               compat_real (lo X xi) (u X xi) b = true.
+Proof. exact fp_check_real_sound. Qed.
+Print Assumptions C02_fp_check_real_sound.
+
+(** verdict 0 also means: ValueError was raised iff expected, and a provable budget
+    exhaustion ([must_warn]) came with a warning *)
+Theorem C02_fp_check_control :
+  forall R W B (o : sr_ops R) rd infl leb far (of_wire : W -> R) (compat : R -> R -> B -> bool)
+         gw ws meth kmax tol K raised warned chkvals obs,
+    fp_check o rd infl leb far of_wire compat (gw, ws, (meth, kmax, tol), K, (raised, warned, chkvals, obs)) = 0 ->
+    let G := grammar_of_w gw in
+    wf_grammar G = true
+    /\ exists order, scc (nt_graph G) = Some order
+         /\ raised = expect_value_error G meth order
+         /\ (raised = false -> must_warn o far tol G meth kmax order (weights_tmt of_wire G ws) = true -> warned = true).
+Proof. exact (@fp_check_zero_control). Qed.
+Print Assumptions C02_fp_check_control.
